@@ -503,9 +503,14 @@ def fam_bind(r, idx, sweep=None, pc_only=False):
         a1, a2, b1 = (Entry(namer.fresh(pre[sa]), sa), Entry(namer.fresh(pre[sa]), sa),
                       Entry(namer.fresh(pre[sb]), sb))
         for e in (a1, b1):
-            form, e_, s_ = buffer_forms(pcs[0], spec.structs, prefer=r.randrange(8))[0]
+            forms = buffer_forms(pcs[0], spec.structs, prefer=r.randrange(8))
+            form, e_, s_ = forms[0]
+            addr = [f_ for f_ in forms if f_[0] == "addr_only"]
+            if e is b1 and addr and r.random() < 0.6:
+                # the second stage only takes the address (a static use without a load)
+                form, e_, s_ = addr[0]
             e.actions.append(Action("access", "top", glob=[pcs[0].name], form=form, expr=e_,
-                                    stmt=None))
+                                    stmt=s_ if e_ is None else None))
         spec.entries = [a1, a2, b1] + [e for e in spec.entries if r.random() < 0.4]
     elif pc_only and pcs and not no_entries:
         # (i) stages interleaved A B A, a helper reading the push constant called by B and the
